@@ -209,6 +209,10 @@ pub struct World<C: MlsConfig> {
     pub hash_caches: BTreeMap<usize, (String, Vec<Vec<u8>>)>,
     /// per member: the parent-hash layer (stored parent_hash of every parent, Commit source of every leaf) as of the previous commit
     pub ph_layers: BTreeMap<usize, Vec<Option<Vec<u8>>>>,
+    /// rows of the composed group model (`mlsmodel group`: g.init / g.commit / g.classes / g.slots) of this history
+    pub group_rows: Vec<(String, String)>,
+    /// every leaf stamp given to the group model so far (its canonical printing treats all other stamps as model-made)
+    pub group_known: std::collections::BTreeSet<usize>,
 }
 
 /// Abstract view of one tree node, numbers from `Stamps`.
@@ -416,6 +420,8 @@ pub fn new_world<C: MlsConfig>(log: SharedCryptoLog, scratch: &str) -> World<C> 
         ended: false,
         hash_caches: Default::default(),
         ph_layers: Default::default(),
+        group_rows: vec![],
+        group_known: Default::default(),
     }
 }
 
